@@ -398,7 +398,9 @@ func (o *Bytes) BinaryOp(op token.Token, rhs Object) (Object, error) {
 			if len(o.Value)+len(rhs.Value) > MaxBytesLen {
 				return nil, ErrBytesLimit
 			}
-			return &Bytes{Value: append(o.Value, rhs.Value...)}, nil
+			b := make([]byte, 0, len(o.Value)+len(rhs.Value))
+			b = append(b, o.Value...)
+			return &Bytes{Value: append(b, rhs.Value...)}, nil
 		}
 	}
 	return nil, ErrInvalidOperator
